@@ -2,7 +2,7 @@
    the no-op laws, the reduction installed at construction, and independence of the order in which
    (several) trainers contributed their parts. *)
 From Coq Require Import List ZArith Bool Arith Reals Lra Lia Permutation.
-From Inferno Require Import Base.Num Base.NumR Gen.Bounding C10.Updater C10.KernelProofs C10.AccProofs C10.OrderProofs
+From Inferno Require Import Base.Num Base.NumR Gen.Bounding C10.Updater C10.KernelAlgebra C10.AccProofs C10.OrderProofs
   C10.WorldProofs.
 Import ListNotations.
 Open Scope R_scope.
@@ -217,20 +217,3 @@ Proof.
   destruct (Z.eqb nm n); [injection Ea as <-; reflexivity|apply IH, Ea].
 Qed.
 
-(* ------------------------------------------------------------------ sharp dependence, as applied *)
-(* With the sharp full bound installed, an element that has reached (or passed) a limit is never moved
-   further beyond it by an application, whatever was accumulated (non-negative reduced magnitudes). *)
-Theorem sharp_never_further_applied (a : accR) (x : tensorW) (j : nat) mx mn :
-  abind RN a = BFull RN (FSharp RN) mx mn ->
-  0 <= rcol (ared RN a) (apos RN a) j -> 0 <= rcol (ared RN a) (aneg RN a) j ->
-  (forall m, mx = Some m -> m <= nth j x 0 -> applied a x j <= nth j x 0) /\
-  (forall m, mn = Some m -> nth j x 0 <= m -> nth j x 0 <= applied a x j).
-Proof.
-  intros Hb Hp Hn. unfold applied. rewrite Hb. cbn [bind_upper bind_lower].
-  pose proof (full_val_decomp (FSharp RN) mx mn (nth j x 0) (rcol (ared RN a) (apos RN a) j)
-                (rcol (ared RN a) (aneg RN a) j) eq_refl) as D. cbn [full_val] in D.
-  destruct (sharp_never_further (nth j x 0) _ _ mx mn Hp Hn) as [U L].
-  split; intros m E Hm.
-  - specialize (U m E Hm). destruct (apos RN a), (aneg RN a); lra.
-  - specialize (L m E Hm). destruct (apos RN a), (aneg RN a); lra.
-Qed.
